@@ -66,6 +66,12 @@ Proof. intros H. apply mem_str_eq. exists n. split; [exact H|apply str_eqb_refl]
 Lemma forallb_In {A} (f : A -> bool) l x : forallb f l = true -> In x l -> f x = true.
 Proof. intros H Hi. rewrite forallb_forall in H. apply H, Hi. Qed.
 
+Lemma filter_none {A} (p : A -> bool) l : (forall x, In x l -> p x = false) -> filter p l = [].
+Proof.
+  induction l as [|x l IH]; intros H; [reflexivity|]. cbn. rewrite (H x) by (left; reflexivity).
+  apply IH. intros; apply H; right; assumption.
+Qed.
+
 (* struct_check with the client's optional list and client flag, allow_optional = True *)
 Lemma struct_check_client names o c j :
   struct_check names (if same_names o names then names else o) true true j = struct_check names o c true j.
@@ -75,15 +81,11 @@ Proof.
   destruct (existsb _ kv); [reflexivity|].
   unfold same_names in Hs. apply andb_prop in Hs. destruct Hs as [_ Hs].
   set (missing := filter (fun n => negb (mem_str n (map fst kv))) names).
+  assert (Hsub : forall n, In n missing -> In n names) by (intros n Hn; apply filter_In in Hn; tauto).
   assert (H1 : filter (fun n => negb (mem_str n names)) missing = []).
-  { assert (Hsub : forall n, In n missing -> In n names) by (intros n Hn; apply filter_In in Hn; tauto).
-    induction missing as [|n l IH]; [reflexivity|]. cbn. rewrite mem_str_refl by (apply Hsub; left; reflexivity).
-    cbn. apply IH. intros; apply Hsub; right; assumption. }
+  { apply filter_none. intros n Hn. rewrite mem_str_refl by (apply Hsub, Hn). reflexivity. }
   assert (H2 : filter (fun n => negb (mem_str n o)) missing = []).
-  { assert (Hsub : forall n, In n missing -> In n names) by (intros n Hn; apply filter_In in Hn; tauto).
-    induction missing as [|n l IH]; [reflexivity|]. cbn.
-    rewrite (forallb_In _ _ n Hs) by (apply Hsub; left; reflexivity).
-    cbn. apply IH. intros; apply Hsub; right; assumption. }
+  { apply filter_none. intros n Hn. rewrite (forallb_In _ _ n Hs) by (apply Hsub, Hn). reflexivity. }
   rewrite H1, H2. reflexivity.
 Qed.
 
@@ -149,7 +151,7 @@ Proof.
     apply client_members in Hcs. apply enums_sorted_struct in HS.
     assert (Hn : map fst cs = map fst ms).
     { clear - Hcs. induction Hcs as [|m c0 ms cs [H _] _ IH]; cbn; [reflexivity|]. rewrite H, IH. reflexivity. }
-    cbn [dt_import]. rewrite Hn, struct_check_client.
+    cbn [dt_import]. rewrite Hn, (struct_check_client (map fst ms) o c j).
     destruct (struct_check (map fst ms) o c true j); [|reflexivity]. cbn [bind].
     destruct (negb (is_dict j)); [reflexivity|].
     rewrite (struct_fold_ext2 (dt_import E) false ms cs); [reflexivity|].
